@@ -72,6 +72,8 @@ def valid_value(s, root, flavour, rng, include_optional, depth=0):
             v = 0.0
         elif flavour == "alt":
             v = 3 if "multipleOf" in s else 16.25
+        elif flavour == "big":
+            v = 123456789.5 if "multipleOf" in s else 1.5           # legal, but needs ten significant digits
         elif flavour == "boundary":
             v = 21.4 if "multipleOf" in s else 2.675
         else:
@@ -204,6 +206,8 @@ def instances_for(name, schema, rng, tier, combos=2):
     optional = [k for k in top.get("properties", {}) if k not in top.get("required", [])]
     for k in optional:
         out.append(("valid-opt:" + k, valid_value(schema, root, "plain", rng, {k}), []))
+    if '"multipleOf"' in json.dumps(schema):
+        out.append(("valid-big", valid_value(schema, root, "big", rng, "all"), []))
     occ = list(occurrences(schema, root, full))
     muts = []
     for (path, kw, node) in occ:
